@@ -187,3 +187,14 @@ Theorem C14_fast_pow2_binary64 : forall k x lo hi x' lo' hi', scaled k x x' -> s
   FR (hi - lo)%float <> 0%R -> (Rabs (FR (x - lo)%float / FR (hi - lo)%float) <= BIG / 256)%R ->
   FR (((x' - lo') / (hi' - lo')) * 100)%float = FR (((x - lo) / (hi - lo)) * 100)%float.
 Proof. exact fast_formula_pow2_invariant. Qed.
+(* one update of SimpleMovingAverage (sum' = sum - old + x, output sum' / count, Model.sma_next): with running sum, evicted value and input
+   scaled by 2^k the new running sum and the output are the scaled ones, under the stated zero-or-normal side conditions on the three
+   intermediate results; the ring buffer stores inputs only, so the statement chains along a stream step by step *)
+Theorem C14_sma_update_pow2_binary64 : forall k (sum old x sum' old' x' cnt : PrimFloat.float),
+  scaled k sum sum' -> scaled k old old' -> scaled k x x' -> finF cnt -> FR cnt <> 0%R ->
+  let d := (sum - old)%float in let s1 := (sum - old + x)%float in
+  (Rabs (FR sum - FR old) <= BIG)%R -> (Rabs ((FR sum - FR old) * bpow radix2 k) <= BIG)%R -> zero_or_normal k (FR sum - FR old) ->
+  (Rabs (FR d + FR x) <= BIG)%R -> (Rabs ((FR d + FR x) * bpow radix2 k) <= BIG)%R -> zero_or_normal k (FR d + FR x) ->
+  (Rabs (FR s1 / FR cnt) <= BIG)%R -> (Rabs ((FR s1 / FR cnt) * bpow radix2 k) <= BIG)%R -> zero_or_normal k (FR s1 / FR cnt) ->
+  scaled k s1 (sum' - old' + x')%float /\ scaled k (s1 / cnt)%float ((sum' - old' + x') / cnt)%float.
+Proof. exact sma_update_pow2. Qed.
